@@ -268,7 +268,7 @@ class Frame:
 
 
 class LoopCtx:
-    __slots__ = ('kind', 'node', 'iter', 'elem', 'key', 'conds', 'target')
+    __slots__ = ('kind', 'node', 'iter', 'elem', 'key', 'conds', 'target', 'base')
 
     def __init__(self, kind, node, it, elem, key, target=None):
         self.kind = kind
@@ -278,12 +278,14 @@ class LoopCtx:
         self.key = key
         self.conds = []
         self.target = target
+        self.base = None
 
 
 class Analysis:
     """base class of rule analyses: hooks called by the interpreter.
     Every hook may return None for the default behaviour."""
 
+    drop_callee_facts = False # forget what was learned inside an inlined helper when it returns
     gen_cancel = False        # fork a Cancelled outcome at may-suspend awaits
     gen_bodyexc = False       # fork a BodyExc outcome at awaits of user code
     max_inline = 4
@@ -341,6 +343,9 @@ class Analysis:
 
     def keep_fact(self, ip, func, term):
         return False
+
+    def on_suspend(self, ip, node, term, st, fr):
+        return st
 
     # classification of opaque awaits ------------------------------------
     def suspends(self, ip, term):
@@ -767,7 +772,7 @@ class Interp:
         raise AnalysisError("assignment target %s not handled" % type(tgt).__name__)
 
     def default_store_attr(self, obj, attr, st):
-        return st.forget(lambda s: T.is_attr(s, attr))
+        return st.forget(store_invalidates(obj, attr))
 
     def x_If(self, s, st, fr):
         o = Out()
@@ -784,7 +789,7 @@ class Interp:
                 r = self.exec_block(body, [y], fr)
                 o.absorb(r)
                 sides.append((added, r.nxt))
-            if len(sides) == 2 and sides[0][1] and sides[1][1]:
+            if len(sides) == 2 and sides[0][1] and sides[1][1] and not self.in_summary:
                 # join point reached from both sides: the facts contributed by
                 # the test alone are dropped (sound: fewer facts, more paths);
                 # correlations that matter are carried by constant-valued locals
@@ -893,6 +898,10 @@ class Interp:
             if folded is not None:
                 o.nxt += folded
                 continue
+            fr_out = self.try_fold_return(s, it, x, fr)
+            if fr_out is not None:
+                o.absorb(fr_out, nxt=True)
+                continue
             self.iterate(s, it, x, fr, o)
         o.nxt = dedup(o.nxt)
         return o
@@ -955,8 +964,9 @@ class Interp:
             if n > MAX_STATES:
                 raise AnalysisError("state explosion in loop at %s" % self.where(s, fr))
             nonempty = truth(it, cur) if first else None
+            sized = first and nonempty is None and _is_sized(it)
             if not (first and nonempty is True):
-                y = self.an.on_loop_exit(self, ctx, cur, fr)
+                y = self.an.on_loop_exit(self, ctx, cur.assume(it, False) if sized else cur, fr)
                 if y is not None:
                     y = y.forget(lambda t: t == elem)
                     if not first:
@@ -972,6 +982,8 @@ class Interp:
             if first and nonempty is False:
                 continue
             b = cur.forget(lambda t: t == elem)
+            if sized:
+                b = b.assume(it, True)
             bs = self.assign(s.target, elem, b, fr, o, s)
             for b in bs:
                 b = self.an.on_iter(self, ctx, b, fr)
@@ -1079,6 +1091,70 @@ class Interp:
         b = b.assume(('exists', it, key, flip), True)
         b = b.note(where, "fold: %s becomes %s for some element" % (f, sticky))
         return [x for x in (a, b) if x is not None]
+
+    def try_fold_return(self, s, it, st, fr):
+        """search loops: `for x in S: if p(x): return c` -- summarised as
+        (return c, exists x: p) | (fall through, forall x: not p)"""
+        if s.orelse:
+            return None
+        has_ret = False
+        for n in _walk_stmts(s.body):
+            if isinstance(n, (ast.Yield, ast.YieldFrom, ast.Raise, ast.Try, ast.With, ast.AsyncWith,
+                              ast.While, ast.For, ast.AsyncFor, ast.Break, ast.Assign, ast.AugAssign,
+                              ast.AnnAssign, ast.Await)):
+                return None
+            if isinstance(n, ast.Return):
+                has_ret = True
+        if not has_ret:
+            return None
+        key = self.loop_key(s, fr)
+        elem = T.mk(('elem', it, key))
+        ctx = LoopCtx('for', s, it, elem, key, s.target)
+        b = st.forget(lambda t: t == elem)
+        scratch = Out()
+        bs = self.assign(s.target, elem, b, fr, scratch, s)
+        stay, rets = [], []
+        for b in bs:
+            b = self.an.on_iter(self, ctx, b, fr)
+            if b is None:
+                continue
+            self.loopctx.append(ctx)
+            self.in_summary += 1
+            try:
+                r = self.exec_block(s.body, [b], fr)
+            finally:
+                self.in_summary -= 1
+                self.loopctx.pop()
+            if r.exc or r.brk or scratch.exc:
+                return None
+            for x in r.nxt + r.cont:
+                if x.auto != st.auto:
+                    return None
+                stay.append(frozenset((k, v) for k, v in x.facts.items() if st.facts.get(k) != v))
+            for (x, t, node) in r.ret:
+                if x.auto != st.auto or T.contains(t, elem):
+                    return None
+                rets.append((t, node, frozenset((k, v) for k, v in x.facts.items() if st.facts.get(k) != v)))
+        out = Out()
+        base = self.drop_loop_locals(s, st, fr)
+        where = self.where(s, fr)
+        a = base.assume(T.mk(('forall', it, key, frozenset(stay))), True)
+        if a is not None and stay:
+            out.nxt.append(a.note(where, "fold: the search loop finds nothing"))
+        elif not stay:
+            pass
+        byval = {}
+        for t, node, facts in rets:
+            byval.setdefault((t, id(node)), (t, node, set()))[2].add(facts)
+        for t, node, alts in byval.values():
+            y = base.assume(T.mk(('exists', it, key, frozenset(alts))), True)
+            if y is not None:
+                y = y.note(where, "fold: the search loop returns %s for some element" % T.show(t, 3))
+                if fr.depth == 0:
+                    y = self.an.on_return(self, node, t, y, fr)
+                if y is not None:
+                    out.ret.append((y, t, node))
+        return out
 
     # ----------------------------------------------------------- try / with
     def x_Try(self, s, st, fr):
@@ -1565,9 +1641,11 @@ class Interp:
             if cur is not None and nm != 'self' and cur[0] not in ('var', 'new', 'attr', 'class', 'mod', 'elem'):
                 m = e.func.attr
                 if m in ADDERS and len(args) == 1:
-                    return [(st.with_var(fr.fid, nm, T.union(cur, ('single', args[0]))), T.NONE)]
+                    item = self.conditioned(('single', args[0]), st, fr)
+                    return [(st.with_var(fr.fid, nm, T.union(cur, item)), T.NONE)]
                 if m in EXTENDERS and len(args) == 1:
-                    return [(st.with_var(fr.fid, nm, T.union(cur, args[0])), T.NONE)]
+                    item = self.conditioned(args[0], st, fr)
+                    return [(st.with_var(fr.fid, nm, T.union(cur, item)), T.NONE)]
                 if m in SCRAMBLERS:
                     return [(st.with_var(fr.fid, nm, T.cap(('mutated', cur, m, args), nm)), ('unk', m))]
                 if m == 'copy' and not args:
@@ -1576,10 +1654,11 @@ class Interp:
         if kind == 'new':
             return [(st, ('new', callee, args, kws))]
         if kind == 'ext':
-            if callee in ('set', 'list', 'BestSet', 'tuple', 'frozenset', 'dict') and not args and not kws:
+            short = callee.split('.')[-1]
+            if short in ('set', 'list', 'BestSet', 'tuple', 'frozenset', 'dict', 'OrderedSet') and not args and not kws:
                 return [(st, EMPTY)]
-            if callee in ('set', 'list', 'tuple', 'BestSet', 'frozenset', 'sorted') and len(args) == 1:
-                return [(st, ('call', callee, args, kws))]
+            if short in ('set', 'list', 'tuple', 'BestSet', 'frozenset', 'sorted', 'OrderedSet') and len(args) == 1:
+                return [(st, ('call', 'sorted' if short == 'sorted' else 'set' if short in ('BestSet', 'OrderedSet', 'frozenset') else short, args, kws))]
             return [(st, T.cap(('call', callee, args, kws), 'call'))]
         if kind == 'func':
             f = callee
@@ -1599,6 +1678,24 @@ class Interp:
         if fterm[0] == 'attr':
             return [(st, T.cap(('mcall', fterm[1], fterm[2], args, kws), 'mcall'))]
         return [(st, T.cap(('call', T.show(fterm, 2), args, kws), 'call'))]
+
+    def conditioned(self, item, st, fr):
+        """an accumulation made inside a loop body under a condition on the loop
+        element, or in a loop that may stop early, is not "for every element":
+        wrap it so that provenance rules can tell"""
+        elems = [c.elem for c in self.loopctx if c.kind == 'for' and c.elem is not None]
+        if not elems:
+            return item
+        iters = [c.iter for c in self.loopctx if c.kind == 'for']
+        conds = frozenset((k, v) for k, v in st.facts.items()
+                          if any(T.contains(k, el) for el in elems) and not (v and k in iters))
+        partial = False
+        for c in self.loopctx:
+            if c.kind == 'for' and _may_stop_early(c.node):
+                partial = True
+        if conds or partial:
+            return T.mk(('when', conds, partial, item))
+        return item
 
     def _split(self, results, o, node):
         out = []
@@ -1745,7 +1842,8 @@ class Interp:
             y = y.drop_frame(fid)
             keep = {}
             for k, v in y.facts.items():
-                if k in entry_facts or k[0] in ('forall', 'exists') or self.an.keep_fact(self, f, k):
+                if k in entry_facts or k[0] in ('forall', 'exists') or self.an.keep_fact(self, f, k) \
+                        or not self.an.drop_callee_facts:
                     keep[k] = v
             if len(keep) != len(y.facts):
                 y = y._new(facts=keep)
@@ -1797,6 +1895,8 @@ class Interp:
         if usr and self.an.gen_bodyexc:
             out.append((st.note(self.where(e, fr), "awaited user code raises: %s" % T.show(t, 3)),
                         None, ('BodyExc',)))
+        if sus:
+            y = self.an.on_suspend(self, e, t, y, fr) or y
         out.append((y, ('awaited', t), None))
         return out
 
@@ -1828,6 +1928,47 @@ def _walk_stmts(body):
             if isinstance(c, (ast.FunctionDef, ast.AsyncFunctionDef, ast.ClassDef, ast.Lambda)):
                 continue
             stack.append(c)
+
+
+def store_invalidates(obj, attr):
+    """which attribute-read terms does `obj.attr = ...` invalidate?  A freshly
+    created object (task, instance) aliases nothing but itself."""
+    if obj[0] in ('task', 'new', 'coro'):
+        return lambda s: T.is_attr(s, attr) and s[1] == obj
+    return lambda s: T.is_attr(s, attr)
+
+
+def _is_sized(t):
+    """is truthiness of this collection term the same as non-emptiness?"""
+    t0 = t[0]
+    if t0 in ('attr', 'var', 'union', 'wdone', 'wpend', 'adone', 'apend', 'list', 'set', 'tuple'):
+        return True
+    if t0 == 'comp':
+        return t[1] in ('list', 'set', 'dict')
+    if t0 == 'call' and t[1] in ('list', 'set', 'tuple', 'BestSet', 'frozenset', 'sorted') and len(t[2]) == 1:
+        return True
+    return False
+
+
+def _may_stop_early(loop):
+    """does the loop contain a break of its own, or a return?"""
+    stack = list(loop.body)
+    while stack:
+        n = stack.pop()
+        if isinstance(n, ast.Return):
+            return True
+        if isinstance(n, ast.Break):
+            return True
+        if isinstance(n, (ast.For, ast.AsyncFor, ast.While)):
+            # a break inside a nested loop belongs to that loop; a return does not
+            for m in ast.walk(n):
+                if isinstance(m, ast.Return):
+                    return True
+            continue
+        if isinstance(n, (ast.FunctionDef, ast.AsyncFunctionDef, ast.ClassDef, ast.Lambda)):
+            continue
+        stack.extend(ast.iter_child_nodes(n))
+    return False
 
 
 def _is_collection_method(m):
